@@ -33,7 +33,7 @@ ASSUMPTIONS = [
 
 def gen_case(ctx):
     rng = ctx.rng
-    base = lattice.gen_assembly(rng, rotate=False)
+    base = lattice.gen_assembly(rng, rotate=False, long_rows=0.3)
     mode = rng.choices(["well", "missing"], [0.75, 0.25])[0]
     c01.place_chops(rng, base, mode)
     # families holding two chops of equal count but different expansion
